@@ -26,8 +26,8 @@ echo "== demo with change"
 if [ -f $out/demo.sh ]; then (cd $out && timeout 1200 bash ./demo.sh $wt) > /tmp/seedwork/demo-$tag-with.log 2>&1; with_rc=$?; else with_rc=missing; fi
 echo "demo_with_rc=$with_rc"; tail -5 /tmp/seedwork/demo-$tag-with.log
 echo "== demo without change"
-git stash -q
+git diff > /tmp/seedwork/stash-$tag.diff; git checkout -- .
 if [ -f $out/demo.sh ]; then (cd $out && timeout 1200 bash ./demo.sh $wt) > /tmp/seedwork/demo-$tag-without.log 2>&1; without_rc=$?; else without_rc=missing; fi
-git stash pop -q
+git apply /tmp/seedwork/stash-$tag.diff
 echo "demo_without_rc=$without_rc"; tail -5 /tmp/seedwork/demo-$tag-without.log
 echo "RESULT tag=$tag suite_rc=$suite_rc demo_with=$with_rc demo_without=$without_rc"
